@@ -74,7 +74,12 @@ func (p *Probe) Name() string { return fmt.Sprintf("%s v%d", kmsg.NameForKey(p.K
 // GenProbe draws a probe. env should be Bounded.
 func GenProbe(t *rapid.T, tb *Table, env *vfc10gen.Env, label string) *Probe {
 	p := &Probe{}
-	switch c := rapid.IntRange(0, 19).Draw(t, label+"class"); {
+	switch c := rapid.IntRange(0, 20).Draw(t, label+"class"); {
+	case c == 20:
+		// ApiVersions from a client newer than the server (version negotiation)
+		r := tb.Ranges[18]
+		p.Key, p.Class = 18, "apiversions-above-max"
+		p.Version = rapid.SampledFrom([]int16{r[1] + 1, r[1] + 2, r[1] + 6, 100, 32767}).Draw(t, label+"av")
 	case c < 13:
 		kv := tb.Pairs[vfc10gen.Pick(t, label+"kv", len(tb.Pairs))]
 		p.Key, p.Version, p.Class, p.Advertised = kv.Key, kv.Version, "advertised", true
@@ -245,14 +250,20 @@ func JudgeReply(p *Probe, tb *Table, reply []byte) (violation string, note strin
 		return fmt.Sprintf("correlation id %d, want %d", c, p.Corr), ""
 	}
 	rest := reply[4:]
-	// ApiVersions beyond the advertised maximum: the standard v0 fallback (KIP-511) is fine
+	// ApiVersions above the advertised maximum: KIP-511 / the protocol guide require the v0
+	// response (v0 header, error UNSUPPORTED_VERSION) - the one layout every client, however
+	// new, can decode; a body in any newer layout is by definition one the client was not
+	// told about.
 	if p.Key == 18 {
-		if r, ok := tb.Ranges[18]; ok && (p.Version > r[1] || p.Version < r[0]) {
-			if resp, msg := decodeExact(18, 0, rest); msg == "" {
-				if resp.(*kmsg.ApiVersionsResponse).ErrorCode == 35 {
-					return "", "apiversions-v0-fallback"
-				}
+		if r, ok := tb.Ranges[18]; ok && p.Version > r[1] {
+			resp, msg := decodeExact(18, 0, rest)
+			if msg != "" {
+				return fmt.Sprintf("ApiVersions v%d is above the advertised max v%d: the reply must be a v0 ApiVersionsResponse, but %s", p.Version, r[1], msg), ""
 			}
+			if ec := resp.(*kmsg.ApiVersionsResponse).ErrorCode; ec != 35 {
+				return fmt.Sprintf("ApiVersions v%d is above the advertised max v%d: the v0 reply must carry UNSUPPORTED_VERSION (35), got error code %d", p.Version, r[1], ec), ""
+			}
+			return "", "apiversions-v0-fallback"
 		}
 	}
 	flexHeader := p.Key != 18 && requestFlexible(p.Key, p.Version)
